@@ -8,8 +8,8 @@
 //   script sets the time the *unmodified* library code reads.  No source hook in /repo.
 //   `clock=real`: the definition forwards to libc.
 // * `private` is opened for this translation unit only, to reach
-//   IterationTerminationCondition::timesCalled_ (`itcset`, used to get near the 2^32 wrap without
-//   4e9 calls; `itcspin` does it through the public eval()) and PlannerTerminationCondition::impl_
+//   IterationTerminationCondition::timesCalled_ (`itcset`, used to get near evaluation 2^32 - where the
+//   counter wrapped before /repo 354f9f45d - without 4e9 calls; `itcspin` does it through the public eval()) and PlannerTerminationCondition::impl_
 //   (`solve` reads period_ through a layout mirror that is self-tested at start-up).
 #include "common/proto.h"
 #include <atomic>
@@ -438,11 +438,12 @@ int main()
             o->second.reset();
             std::cout << "ok\n";
         }
-        else if (op == "itcset" && t.size() == 3 && vp::parseNat(t[2]) && *vp::parseNat(t[2]) < 4294967296ULL)
+        else if (op == "itcset" && t.size() == 3 && vp::parseNat(t[2]))
         {
             auto o = itcs.find(t[1]);
             if (o == itcs.end()) { std::cout << "unknown\n"; continue; }
-            o->second.timesCalled_ = (unsigned int)*vp::parseNat(t[2]);
+            // whatever width the counter has in the tree under test (64 bit since /repo 354f9f45d)
+            o->second.timesCalled_ = static_cast<decltype(o->second.timesCalled_)>(*vp::parseNat(t[2]));
             std::cout << "ok\n";
         }
         else if (op == "itcspin" && t.size() == 3 && vp::parseNat(t[2]))
